@@ -54,7 +54,7 @@ func init() {
 			}
 			mc := &RuleResult{Rule: "MARKCOUNT", Doc: "where cells of a scratch slice are marked with a sentinel and counted at several places, each place knows the cell is not marked yet (the count equals the number of marks)", MinInst: 1}
 			ruleMarkCount(c, mc, "sortints")
-			return []*RuleResult{pure, ro, fr, ruleSwap(c, "SWAP", swapDoc, c17Swap, 10), mc}
+			return []*RuleResult{pure, ro, fr, ruleSwap(c, "SWAP", swapDoc, c17Swap, 7), mc}
 		},
 		controls: func(ctl *Ctx) []*RuleResult {
 			pure := &RuleResult{Rule: "PURE"}
@@ -81,7 +81,7 @@ func init() {
 			sw := ruleSwap(c, "SWAP", swapDoc, []swapSpec{
 				{pkgRel: "itertools", fn: "PermutationIterator.Next", field: "p"},
 				{pkgRel: "itertools", fn: "LexicographicPermutationIterator.Next", field: "a"},
-			}, 8)
+			}, 3)
 			fw := ruleFieldWriters(c, "FIELD-WRITERS", []fieldWriterSpec{
 				{pkgRel: "itertools", typ: "PermutationIterator", field: "p", allowed: []string{"(*itertools.PermutationIterator).Next"}},
 				{pkgRel: "itertools", typ: "LexicographicPermutationIterator", field: "a", allowed: []string{"(*itertools.LexicographicPermutationIterator).Next", "(*itertools.MultisetPermutationIterator).Next"}},
